@@ -1,0 +1,268 @@
+// Copyright © 2024 Attestant Limited.
+// Licensed under the Apache License, Version 2.0 (the "License");
+// you may not use this file except in compliance with the License.
+// You may obtain a copy of the License at
+//
+//     http://www.apache.org/licenses/LICENSE-2.0
+//
+// Unless required by applicable law or agreed to in writing, software
+// distributed under the License is distributed on an "AS IS" BASIS,
+// WITHOUT WARRANTIES OR CONDITIONS OF ANY KIND, either express or implied.
+// See the License for the specific language governing permissions and
+// limitations under the License.
+
+//go:build verif
+
+// Verification hooks: compiled only with the build tag "verif".  Add-only; nothing here is
+// reachable from a normal build.  NewForVerif builds a controller without subscribing to events,
+// starting tickers or scheduling start-up duties; the Verif* methods expose unexported methods
+// and state to the external verification harness, unchanged.
+
+package standard
+
+import (
+	"context"
+	"io"
+	"time"
+
+	eth2client "github.com/attestantio/go-eth2-client"
+	"github.com/attestantio/go-eth2-client/spec/phase0"
+	"github.com/attestantio/vouch/services/accountmanager"
+	"github.com/attestantio/vouch/services/attestationaggregator"
+	"github.com/attestantio/vouch/services/attester"
+	"github.com/attestantio/vouch/services/beaconblockproposer"
+	"github.com/attestantio/vouch/services/beaconcommitteesubscriber"
+	"github.com/attestantio/vouch/services/cache"
+	"github.com/attestantio/vouch/services/chaintime"
+	"github.com/attestantio/vouch/services/metrics"
+	"github.com/attestantio/vouch/services/proposalpreparer"
+	"github.com/attestantio/vouch/services/scheduler"
+	"github.com/attestantio/vouch/services/synccommitteeaggregator"
+	"github.com/attestantio/vouch/services/synccommitteemessenger"
+	"github.com/attestantio/vouch/services/synccommitteesubscriber"
+	"github.com/rs/zerolog"
+	e2wtypes "github.com/wealdtech/go-eth2-wallet-types/v2"
+)
+
+// VerifDeps is everything a controller needs, given directly (no spec lookups, no I/O).
+type VerifDeps struct {
+	LogLevel zerolog.Level
+	Monitor  metrics.Service
+
+	// Services and providers.
+	ChainTime                   chaintime.Service
+	Scheduler                   scheduler.Service
+	ProposerDutiesProvider      eth2client.ProposerDutiesProvider
+	AttesterDutiesProvider      eth2client.AttesterDutiesProvider
+	SyncCommitteeDutiesProvider eth2client.SyncCommitteeDutiesProvider
+	ValidatingAccountsProvider  accountmanager.ValidatingAccountsProvider
+	ProposalsPreparer           proposalpreparer.Service
+	Attester                    attester.Service
+	SyncCommitteeMessenger      synccommitteemessenger.Service
+	SyncCommitteeAggregator     synccommitteeaggregator.Service
+	SyncCommitteesSubscriber    synccommitteesubscriber.Service
+	BeaconBlockProposer         beaconblockproposer.Service
+	BeaconBlockHeadersProvider  eth2client.BeaconBlockHeadersProvider
+	SignedBeaconBlockProvider   eth2client.SignedBeaconBlockProvider
+	AttestationAggregator       attestationaggregator.Service
+	BeaconCommitteeSubscriber   beaconcommitteesubscriber.Service
+	AccountsRefresher           accountmanager.Refresher
+	BlockToSlotSetter           cache.BlockRootToSlotSetter
+
+	// Chain parameters (normally read from the spec).
+	SlotDuration                 time.Duration
+	SlotsPerEpoch                uint64
+	EpochsPerSyncCommitteePeriod uint64
+
+	// Configuration.
+	MaxProposalDelay              time.Duration
+	MaxAttestationDelay           time.Duration
+	AttestationAggregationDelay   time.Duration
+	MaxSyncCommitteeMessageDelay  time.Duration
+	SyncCommitteeAggregationDelay time.Duration
+	VerifySyncCommitteeInclusion  bool
+	FastTrackAttestations         bool
+	FastTrackSyncCommittees       bool
+	FastTrackGrace                time.Duration
+
+	// Fork control (normally the results of altairDetails/bellatrixDetails/capellaDetails).
+	HandlingAltair     bool
+	AltairForkEpoch    phase0.Epoch
+	HandlingBellatrix  bool
+	BellatrixForkEpoch phase0.Epoch
+	CapellaForkEpoch   phase0.Epoch
+}
+
+// NewForVerif builds a controller from its parts.  Unlike New it registers no event handler,
+// starts no ticker and schedules nothing.
+func NewForVerif(deps *VerifDeps) *Service {
+	// Output is discarded; the level still decides which trace-only code paths run.
+	log := zerolog.New(io.Discard).Level(deps.LogLevel)
+
+	return &Service{
+		log:                           log,
+		monitor:                       deps.Monitor,
+		slotDuration:                  deps.SlotDuration,
+		slotsPerEpoch:                 deps.SlotsPerEpoch,
+		epochsPerSyncCommitteePeriod:  deps.EpochsPerSyncCommitteePeriod,
+		chainTimeService:              deps.ChainTime,
+		proposerDutiesProvider:        deps.ProposerDutiesProvider,
+		attesterDutiesProvider:        deps.AttesterDutiesProvider,
+		syncCommitteeDutiesProvider:   deps.SyncCommitteeDutiesProvider,
+		syncCommitteesSubscriber:      deps.SyncCommitteesSubscriber,
+		validatingAccountsProvider:    deps.ValidatingAccountsProvider,
+		proposalsPreparer:             deps.ProposalsPreparer,
+		scheduler:                     deps.Scheduler,
+		attester:                      deps.Attester,
+		syncCommitteeMessenger:        deps.SyncCommitteeMessenger,
+		syncCommitteeAggregator:       deps.SyncCommitteeAggregator,
+		beaconBlockProposer:           deps.BeaconBlockProposer,
+		beaconBlockHeadersProvider:    deps.BeaconBlockHeadersProvider,
+		signedBeaconBlockProvider:     deps.SignedBeaconBlockProvider,
+		attestationAggregator:         deps.AttestationAggregator,
+		beaconCommitteeSubscriber:     deps.BeaconCommitteeSubscriber,
+		accountsRefresher:             deps.AccountsRefresher,
+		blockToSlotSetter:             deps.BlockToSlotSetter,
+		maxProposalDelay:              deps.MaxProposalDelay,
+		maxAttestationDelay:           deps.MaxAttestationDelay,
+		attestationAggregationDelay:   deps.AttestationAggregationDelay,
+		maxSyncCommitteeMessageDelay:  deps.MaxSyncCommitteeMessageDelay,
+		syncCommitteeAggregationDelay: deps.SyncCommitteeAggregationDelay,
+		verifySyncCommitteeInclusion:  deps.VerifySyncCommitteeInclusion,
+		fastTrackAttestations:         deps.FastTrackAttestations,
+		fastTrackSyncCommittees:       deps.FastTrackSyncCommittees,
+		fastTrackGrace:                deps.FastTrackGrace,
+		subscriptionInfos:             make(map[phase0.Epoch]map[phase0.Slot]map[phase0.CommitteeIndex]*beaconcommitteesubscriber.Subscription),
+		handlingAltair:                deps.HandlingAltair,
+		altairForkEpoch:               deps.AltairForkEpoch,
+		handlingBellatrix:             deps.HandlingBellatrix,
+		bellatrixForkEpoch:            deps.BellatrixForkEpoch,
+		capellaForkEpoch:              deps.CapellaForkEpoch,
+		pendingAttestations:           make(map[phase0.Slot]bool),
+	}
+}
+
+// ---------------------------------------------------------------------------------------------
+// Wrappers for unexported methods.
+
+// VerifScheduleAttestations is scheduleAttestations.
+func (s *Service) VerifScheduleAttestations(ctx context.Context, epoch phase0.Epoch, validatorIndices []phase0.ValidatorIndex, notCurrentSlot bool) {
+	s.scheduleAttestations(ctx, epoch, validatorIndices, notCurrentSlot)
+}
+
+// VerifScheduleProposals is scheduleProposals.
+func (s *Service) VerifScheduleProposals(ctx context.Context, epoch phase0.Epoch, validatorIndices []phase0.ValidatorIndex, notCurrentSlot bool) {
+	s.scheduleProposals(ctx, epoch, validatorIndices, notCurrentSlot)
+}
+
+// VerifScheduleSyncCommitteeMessages is scheduleSyncCommitteeMessages.
+func (s *Service) VerifScheduleSyncCommitteeMessages(ctx context.Context, epoch phase0.Epoch, validatorIndices []phase0.ValidatorIndex, notCurrentSlot bool) {
+	s.scheduleSyncCommitteeMessages(ctx, epoch, validatorIndices, notCurrentSlot)
+}
+
+// VerifRefreshAttesterDutiesForEpoch is refreshAttesterDutiesForEpoch.
+func (s *Service) VerifRefreshAttesterDutiesForEpoch(ctx context.Context, epoch phase0.Epoch) {
+	s.refreshAttesterDutiesForEpoch(ctx, epoch)
+}
+
+// VerifRefreshProposerDutiesForEpoch is refreshProposerDutiesForEpoch.
+func (s *Service) VerifRefreshProposerDutiesForEpoch(ctx context.Context, epoch phase0.Epoch) {
+	s.refreshProposerDutiesForEpoch(ctx, epoch)
+}
+
+// VerifRefreshSyncCommitteeDutiesForEpochPeriod is refreshSyncCommitteeDutiesForEpochPeriod.
+func (s *Service) VerifRefreshSyncCommitteeDutiesForEpochPeriod(ctx context.Context, epoch phase0.Epoch) {
+	s.refreshSyncCommitteeDutiesForEpochPeriod(ctx, epoch)
+}
+
+// VerifCheckEventForReorg is checkEventForReorg.
+func (s *Service) VerifCheckEventForReorg(ctx context.Context, epoch phase0.Epoch, slot phase0.Slot, previousDutyDependentRoot phase0.Root, currentDutyDependentRoot phase0.Root) {
+	s.checkEventForReorg(ctx, epoch, slot, previousDutyDependentRoot, currentDutyDependentRoot)
+}
+
+// VerifFastTrackJobs is fastTrackJobs.
+func (s *Service) VerifFastTrackJobs(ctx context.Context, slot phase0.Slot) {
+	s.fastTrackJobs(ctx, slot)
+}
+
+// VerifEpochTickerData is the state of one epoch ticker.
+type VerifEpochTickerData struct {
+	data *epochTickerData
+}
+
+// VerifNewEpochTickerData is the ticker state startEpochTicker creates.
+func (s *Service) VerifNewEpochTickerData() *VerifEpochTickerData {
+	return &VerifEpochTickerData{data: &epochTickerData{latestEpochRan: -1, atGenesis: s.waitedForGenesis}}
+}
+
+// LatestEpochRan is the last epoch the ticker ran for (-1 initially).
+func (d *VerifEpochTickerData) LatestEpochRan() int64 {
+	d.data.mutex.Lock()
+	defer d.data.mutex.Unlock()
+	return d.data.latestEpochRan
+}
+
+// VerifEpochTicker is epochTicker.
+func (s *Service) VerifEpochTicker(ctx context.Context, data *VerifEpochTickerData) {
+	s.epochTicker(ctx, data.data)
+}
+
+// VerifPrepareForEpoch is prepareForEpoch.
+func (s *Service) VerifPrepareForEpoch(ctx context.Context, epoch phase0.Epoch) {
+	s.prepareForEpoch(ctx, &prepareForEpochData{epoch: epoch})
+}
+
+// VerifHandleAltairForkEpoch is handleAltairForkEpoch.
+func (s *Service) VerifHandleAltairForkEpoch(ctx context.Context) {
+	s.handleAltairForkEpoch(ctx)
+}
+
+// VerifFirstEpochOfSyncPeriod is firstEpochOfSyncPeriod.
+func (s *Service) VerifFirstEpochOfSyncPeriod(period uint64) phase0.Epoch {
+	return s.firstEpochOfSyncPeriod(period)
+}
+
+// VerifSubscribeToBeaconCommittees is subscribeToBeaconCommittees.
+func (s *Service) VerifSubscribeToBeaconCommittees(ctx context.Context, epoch phase0.Epoch, accounts map[phase0.ValidatorIndex]e2wtypes.Account) {
+	s.subscribeToBeaconCommittees(ctx, epoch, accounts)
+}
+
+// VerifAltairDetails is altairDetails.
+func VerifAltairDetails(ctx context.Context, specProvider eth2client.SpecProvider, syncCommitteeAggregator synccommitteeaggregator.Service, epochsPerSyncCommitteePeriod uint64) (bool, phase0.Epoch) {
+	return altairDetails(ctx, zerolog.Nop(), specProvider, syncCommitteeAggregator, epochsPerSyncCommitteePeriod)
+}
+
+// ---------------------------------------------------------------------------------------------
+// State accessors.
+
+// VerifForkState returns handlingAltair, altairForkEpoch, handlingBellatrix, bellatrixForkEpoch, capellaForkEpoch.
+func (s *Service) VerifForkState() (bool, phase0.Epoch, bool, phase0.Epoch, phase0.Epoch) {
+	return s.handlingAltair, s.altairForkEpoch, s.handlingBellatrix, s.bellatrixForkEpoch, s.capellaForkEpoch
+}
+
+// VerifReorgState returns lastBlockEpoch, previousDutyDependentRoot, currentDutyDependentRoot.
+func (s *Service) VerifReorgState() (phase0.Epoch, phase0.Root, phase0.Root) {
+	return s.lastBlockEpoch, s.previousDutyDependentRoot, s.currentDutyDependentRoot
+}
+
+// VerifPendingAttestationsLen is the number of slots marked as having pending attestations.
+func (s *Service) VerifPendingAttestationsLen() int {
+	s.pendingAttestationsMutex.RLock()
+	defer s.pendingAttestationsMutex.RUnlock()
+	return len(s.pendingAttestations)
+}
+
+// VerifSubscriptionInfosLen is the number of epochs for which subscription information is held.
+func (s *Service) VerifSubscriptionInfosLen() int {
+	s.subscriptionInfosMutex.Lock()
+	defer s.subscriptionInfosMutex.Unlock()
+	return len(s.subscriptionInfos)
+}
+
+// VerifSubscriptionInfo returns the subscription information held for an epoch.
+func (s *Service) VerifSubscriptionInfo(epoch phase0.Epoch) (map[phase0.Slot]map[phase0.CommitteeIndex]*beaconcommitteesubscriber.Subscription, bool) {
+	s.subscriptionInfosMutex.Lock()
+	defer s.subscriptionInfosMutex.Unlock()
+	info, exists := s.subscriptionInfos[epoch]
+	return info, exists
+}
